@@ -25,7 +25,7 @@ YAML_HOSTILE = [
 ]
 
 TARGETS = ["default", "nested", "absolute", "yaml", "dotslash"]
-STATES = ["absent", "empty", "bytes", "valid", "directory", "dangling", "readonly", "noparent"]
+STATES = ["absent", "empty", "bytes", "valid", "directory", "dangling", "readonly", "noparent", "fifo"]
 
 
 def roundtrip_key(pkg):
@@ -144,6 +144,8 @@ def eval_case(ctx, case):
         with open(target, "w") as f:
             f.write("# mine\n")
         os.chmod(target, 0o444)
+    elif st == "fifo":
+        os.mkfifo(target)   # a named pipe nobody writes to: whoever opens it for reading waits forever
     elif st == "noparent":
         existed = False
         arg = "missing-dir/sub/conf.yml"
@@ -161,7 +163,10 @@ def eval_case(ctx, case):
         # MOCKERY_* variables configure a *run*; the file init writes must still state the documented defaults
         env = {"MOCKERY_TEMPLATE": "matryer", "MOCKERY_LOG_LEVEL": "debug", "MOCKERY_FORCE_FILE_WRITE": "true", "MOCKERY_FORMATTER": "noop",
                "MOCKERY_DIR": "elsewhere", "MOCKERY_ALL": "true", "MOCKERY_RECURSIVE": "true"}
-    r = core.run_mockery(ctx, root, args, env_extra=env, timeout=120)
+    r = core.run_mockery(ctx, root, args, env_extra=env, timeout=120, block_window=15 if st == "fifo" else None)
+    if r.blocked:
+        return Verdict.violated("init neither failed nor finished: every thread of the process slept without consuming CPU for 15 consecutive samples (target state %s)" % st,
+                                dict(r.brief(), target_state=st), ["state=" + st, "blocked"])
     if r.timed_out:
         return Verdict.inconclusive("watchdog")
     after = core.snapshot(root)
